@@ -202,6 +202,30 @@ Theorem C15_transparent : forall c, ks_ok c -> forall tr st, store_ok st ->
 Proof. exact run_transparent. Qed.
 Print Assumptions C15_transparent.
 
+(* --- retransmissions: the client encodes the caller's request, never an already encoded one --- *)
+Theorem C15_retransmit : forall c o n, nth_wire false c o n = enc_op c o.
+Proof. exact nth_wire_first. Qed.
+Print Assumptions C15_retransmit.
+
+Theorem C15_retransmit_transparent : forall c o n st, ks_ok c -> store_ok st ->
+  let '(st', r) := step (nth_wire false c o n) st in
+  step o (view c st) = (view c st', dec_res c r) /\
+  (forall c', ks_ok c' -> c' <> c -> view c' st' = view c' st).
+Proof. exact retransmit_transparent. Qed.
+Print Assumptions C15_retransmit_transparent.
+
+Theorem C15_encode_not_idempotent : forall c k, encode_key c (encode_key c k) <> encode_key c k.
+Proof. exact encode_key_not_idempotent. Qed.
+Print Assumptions C15_encode_not_idempotent.
+
+(* a send loop that re-encodes the previous transmission is refuted: the acknowledged write is lost to its author *)
+Theorem C15_reencoding_client_refuted : exists c k v,
+  ks_ok c /\ nth_wire true c (OPut k v) 1 <> enc_op c (OPut k v) /\
+  lookup k (view c (fst (step (nth_wire true c (OPut k v) 1) []))) = None /\
+  lookup k (view c (fst (step (nth_wire false c (OPut k v) 1) []))) = Some v.
+Proof. exact reencode_refuted. Qed.
+Print Assumptions C15_reencoding_client_refuted.
+
 (* --- catalogue: meaning of the generated finite check --- *)
 Theorem C15_catalogue_meaning : forall fields cmds, catalogue_ok fields cmds = true ->
   (forall f, In f fields -> f_obs f = expected f /\ f_foreign_rejected f = true) /\
